@@ -244,6 +244,8 @@ struct Interp<'a> {
     sig_names: Vec<String>,
     virtuals: Vec<(String, &'a Expr)>,
     in_virtual: bool,
+    /// a layout deviation has happened (continue mode)
+    deviated: bool,
     /// per evaluated identifier bookkeeping for the "output moved" probe
     last_answer_changed: bool,
     stmt_counter: usize,
@@ -445,6 +447,13 @@ impl<'a> Interp<'a> {
                             }
                             self.probe(Probe::ZxRead);
                             Err(Stop::Err(ErrClass::ZxRead))
+                        }
+                        None if self.deviated => {
+                            // (continue mode, after a layout deviation) the latest
+                            // output-reading answer does not contain this output: there is no
+                            // value the expression could evaluate to
+                            self.probe(Probe::Unassigned);
+                            Err(Stop::Err(ErrClass::Unassigned))
                         }
                         None => Err(Stop::Unspecified(format!(
                             "read of `{name}` which the device does not supply"
@@ -786,6 +795,7 @@ impl<'a> Interp<'a> {
                                     // the call was an output-reading call and its answer was
                                     // received: by name, these are now the latest values; the
                                     // row itself is an error item, the run goes on
+                                    self.deviated = true;
                                     self.set_outputs(&ans);
                                     step.continues = true;
                                     self.steps.push(step);
@@ -1119,6 +1129,7 @@ pub fn run_reference(inp: &RefInput<'_>) -> RefRun {
             .map(|(n, e)| (n.to_string(), *e))
             .collect(),
         in_virtual: false,
+        deviated: false,
         last_answer_changed: false,
         stmt_counter: 0,
     };
